@@ -143,8 +143,9 @@ class CollationManager(context_class_base):
                     if not self.fallback:
                         raise
                     locale.setlocale(locale.LC_COLLATE, 'en_US.UTF-8')
-            except locale.Error:
-                # LC_COLLATE is unchanged: release the lock before leaving
+            except (locale.Error, ValueError):
+                # LC_COLLATE is unchanged: release the lock before leaving. A collation
+                # string with an embedded NUL makes setlocale() raise a ValueError.
                 self._current_lc_collate = None
                 _locale_collate_lock.release()
                 msg = f"Unsupported collation {self.collation!r}"
